@@ -168,6 +168,7 @@ def run(run, ix, tier):
     check_interval_forms(run, ix)
     check_no_lossy_cache(run, ix)
     check_literal_length(run, ix)
+    check_text_never_through_float(run, ix)
 
 
 def check_threading(run, ix):
@@ -469,6 +470,55 @@ def _length_guarded(call, arg):
                 return t.comparators[0].value
         child, p = p, getattr(p, '_parent', None)
     return None
+
+
+TEXT_VALUE_FILES = ('mpmath/libmp/libmpf.py', 'mpmath/libmp/libmpi.py', 'mpmath/ctx_mp_python.py', 'mpmath/ctx_mp.py',
+                    'mpmath/ctx_iv.py')
+
+
+def check_text_never_through_float(run, ix):
+    """L-R3.  A decimal text denotes an exact rational; its binary value at ANY precision and magnitude comes from
+    from_str.  Python's float() is correctly rounded to 53 bits only for normal doubles: it overflows, and in the
+    subnormal range (below 2.2e-308) it keeps fewer than 53 bits, so mpf(repr(x)) != x there.  In the conversion
+    layers float(<text>) may therefore be used for VALIDATION only (its result discarded)."""
+    run.rule('L-R3', floor=1, desc='float() of a text is used for validation only, never for the value')
+    n = 0
+    for rel in TEXT_VALUE_FILES:
+        for f in list(ix.module(rel).funcs.values()):
+            kinds = None
+            for c in _walk_own(f.node):
+                if not (isinstance(c, ast.Call) and isinstance(c.func, ast.Name) and c.func.id == 'float' and
+                        len(c.args) == 1):
+                    continue
+                a = c.args[0]
+                if kinds is None:
+                    kinds = StrKinds(f.node)
+                text = kinds.of(a) in ('S', 'L')
+                if not text and isinstance(a, ast.Name):
+                    p_ = c
+                    while p_ is not None and p_ is not f.node:
+                        par = getattr(p_, '_parent', None)
+                        if isinstance(par, ast.If) and any(p_ is s_ for s_ in par.body):
+                            for t in ast.walk(par.test):
+                                if isinstance(t, ast.Call) and norm(t.func) == 'isinstance' and len(t.args) == 2 and \
+                                        norm(t.args[0]) == a.id and any(isinstance(z, ast.Name) and z.id in ('basestring', 'str')
+                                                                        for z in ast.walk(t.args[1])):
+                                    text = True
+                        p_ = par
+                if not text:
+                    continue
+                n += 1
+                if isinstance(getattr(c, '_parent', None), ast.Expr):
+                    run.ok('L-R3', '%s: float(%s) validates the literal, its value is discarded' % (f.qualname, norm(a)))
+                else:
+                    st = c
+                    while not isinstance(st, ast.stmt):
+                        st = st._parent
+                    run.fail(Finding('L-R3', rel, f.qualname, norm(st),
+                                     'the value of a decimal text is taken from float(): beyond the normal double range '
+                                     'it overflows or, for |x| < 2.2e-308, keeps fewer than 53 bits, so the literal is '
+                                     'not converted correctly and mpf(repr(x)) != x for such x', line=c.lineno))
+    return n
 
 
 def check_literal_length(run, ix):
